@@ -2,11 +2,16 @@
   Driver ops for C07 (and helpers shared with C08):
     render        policy → text of `renderMin` / `renderFull` under `layout seed` (hex)
     parse-tokens  token list produced by the Go `Tokenize` hook → canonical policy (`showPolicyC07`) or `err`
+    parse-bytes   {"text": hex, "list": bool} → MODEL lexer (`Lx.tokensWithPos`) → model parser → canonical policy /
+                  policy list with positions, or `err` (scanner or parse error): the composed pipeline of
+                  C07_parse_text_roundtrip_partial / C18_stream_parse_eq_bytes_parse, compared with Go's
+                  `Policy.UnmarshalCedar` / `NewPolicyListFromBytes` on the same bytes
     escape / unquote / pattern / escape-class   white-box ops for Model/Text/Escape.lean
 -/
 import CedarGo.Driver.Ops.Core
 import CedarGo.Model.Text.Printer
 import CedarGo.Model.Text.Parser
+import CedarGo.Model.Text.Layout
 namespace CedarGo.Driver
 open Lean CedarGo CedarGo.Text
 
@@ -91,6 +96,25 @@ def opParseTokensC07 : Handler := fun _ j => do
     | some (.error _) => .ok "err"
     | some (.ok p) => .ok ("ok " ++ showPolicyC07 true p)
 
+def opParseBytesC07 : Handler := fun _ j => do
+  let src ← unhexBytes (← jStr (← field j "text"))
+  let isList := match j.getObjVal? "list" with | .ok (.bool b) => b | _ => false
+  match Lx.tokensWithPos src with
+  | .error .fuel => .ok "model-out-of-fuel"
+  | .error _ => .ok "err"
+  | .ok toks =>
+    let ts := parserInput toks
+    if isList then
+      match parsePolicies ts with
+      | none => .ok "fuel"
+      | some (.error _) => .ok "err"
+      | some (.ok ps) => .ok ("ok " ++ " ## ".intercalate (ps.map (showPolicyC07 true)))
+    else
+      match parsePolicy ts with
+      | none => .ok "fuel"
+      | some (.error _) => .ok "err"
+      | some (.ok p) => .ok ("ok " ++ showPolicyC07 true p)
+
 def hexChars (cs : List Char) : String := hex (String.ofList cs)
 
 def opEscapeC07 : Handler := fun _ j => do
@@ -126,7 +150,7 @@ def opEscapeClassC07 : Handler := fun _ j => do
   .ok (String.ofList ((List.range (b - a)).map fun i => cls (a + i)))
 
 def c07Ops : List (String × Handler) := [
-  ("render", opRenderC07), ("parse-tokens", opParseTokensC07), ("escape", opEscapeC07), ("unquote", opUnquoteC07),
+  ("render", opRenderC07), ("parse-tokens", opParseTokensC07), ("parse-bytes", opParseBytesC07), ("escape", opEscapeC07), ("unquote", opUnquoteC07),
   ("pattern", opPatternC07), ("escape-class", opEscapeClassC07)]
 
 end CedarGo.Driver
